@@ -21,6 +21,32 @@ NAMESPACE = 'VL.C14'
 LEAN_MODULES = ['VotelibProofs.Props.C14']
 GEN_MODULES = ['Divisor', 'Quota']
 
+REQUIRED = [
+    # dispatch flags
+    'dispatchFaithful_leaf', 'dispatchFaithful_conditioned', 'dispatchFaithful_byConstituency',
+    'dispatchFaithful_preApportioned', 'dispatchFaithful_removedApportionment', 'dispatchFaithful_byParty',
+    'dispatchFaithful_multistage', 'dispatchFaithful_unusedVotes', 'dispatchFaithful_fixedSeatCount',
+    'dispatchFaithful_tieBreaking', 'dispatchFaithful_preConverted', 'dispatchFaithful_postConverted',
+    'dispatchFaithful_votingSystem', 'dispatchFaithful_partyList', 'acceptsPrevGains_faithful',
+    # one law per wrapper (arbitrary sub-trees, node-local hypotheses)
+    'fixedSeatCount_law', 'conditioned_law', 'preConverted_law', 'postConverted_law', 'votingSystem_law',
+    'byConstituency_law', 'preApportioned_law', 'removedApportionment_law', 'byParty_law', 'multistage_law',
+    'unusedVotes_law', 'tieBreaking_law', 'partyList_law',
+    # the same for abstract parts (closure of the strict/by-hand agreement under every wrapper)
+    'agree_leaf', 'agree_fixed', 'agree_conditioned', 'agree_preConverted', 'agree_postConverted',
+    'agree_byConstituency', 'agree_preApportioned', 'agree_removedApportionment', 'agree_byParty',
+    'agree_multistage', 'agree_unusedVotes', 'agree_tieBreaking', 'agree_partyList', 'agree_tree', 'agree_stages',
+    # arbitrary nesting
+    'laws_compose', 'laws_compose_restrict', 'denote_tolerant',
+    # ideal readings, witnesses of the repaired and of the open defects
+    'conditioned_ideal', 'fix_904ccca_now', 'fix_904ccca_before_witness', 'partyList_prev_gains_dropped_witness',
+    'generic_over_seatless_witness', 'conditioned_none_seats_witness', 'byConstituency_all_zero_witness',
+    'byConstituency_missing_district_witness', 'byConstituency_max_seats_forced_witness',
+    # what the laws say
+    'multistage_chain', 'multistage_nil', 'tieBreaking_noTie_sel', 'tieBreaking_noTie_dist', 'tieChoice_among',
+    'chain_cons', 'chain_nil',
+]
+
 WRAPPERS = ['fixed', 'tb', 'cond', 'pre', 'post', 'bycon', 'preapp', 'remapp', 'byparty', 'multi', 'unused',
             'plist', 'vs']
 LEAVES = ['plurality', 'input_order', 'ha', 'abs_thr', 'rel_thr', 'prev_gain_thr']
@@ -482,10 +508,13 @@ class Unspecified(Exception):
     """the property statement does not determine the hand composition"""
 
 
-class _Empty:
-    """empty result of unknown kind (no district was evaluated)"""
+class _Empty(dict):
+    """empty result of unknown kind (no district was evaluated); behaves as an empty dict when it flows on"""
     def __repr__(self):
         return 'EMPTY'
+
+    def __deepcopy__(self, memo):
+        return self
 
 
 EMPTY = _Empty()
@@ -681,6 +710,8 @@ def diagnose(b, votes, kw, w, h):
         if 'n' not in kw and _is_err(w):
             return 'byparty:n_seats_omitted_forwarded_as_None:' + sym
         alloc = b.kids.get('alloc') or b.kids['overall']
+        if vflag_prev(alloc) and 'max' not in takes(alloc) and _is_err(w):
+            return 'byparty:max_seats_forced_on_inner_without_it:' + sym
         if not vflag_prev(alloc) and _takes_prev(alloc) and (kw.get('prev') or kw.get('max')):
             return 'byparty:prev_gains_dropped_for_' + alloc.kind + ':' + sym
     if k == 'unused' and b.node['depth'] > 1 and not isinstance(kw.get('n'), dict):
@@ -1231,7 +1262,7 @@ def gen_directed(rng):
 
 
 def generate(rng, tier):
-    N = 900 if tier == 'quick' else 20000
+    N = 3000 if tier == 'quick' else 40000
     for _ in range(12 if tier == 'quick' else 120):
         yield from gen_directed(rng)
     for i in range(N):
